@@ -533,6 +533,16 @@ class Acceptor:
             self.hit('C12', ('caught', mi.name, self.ix.depth[mi.name], occ.typ == 'none'))
             self.threw = True
             res = 0
+            if not self.mp:
+                # back / back11 re-offer the deferred queue after a *handled* event only: a step that changed
+                # one region's state and was then aborted by an exception in a sibling region leaves the
+                # deferred occurrences where they are until the next handled event (outside C05's exception-
+                # free quantifier; the configuration left behind is C12's subject)
+                x = mi
+                while x:
+                    for d in x.deferred:
+                        d.offered_epoch = x.epoch
+                    x = x.parent
             if not self.mp and mi.comp:
                 # back / back11 run completion processing only after a handled event: a state entered in an
                 # earlier region of the aborted step gets its completion offered with the next handled event
